@@ -113,7 +113,30 @@ fn check(e: &Expression, case: &str, rep: &mut Report) {
         Ok((r, _, _)) => r,
     };
     if uns.is_empty() && has_global {
-        rep.count(if res.is_ok() { "option_node_compiled" } else { "option_node_refused" });
+        if res.is_err() {
+            rep.count("option_node_refused");
+            return;
+        }
+        // compiled: then the option node must behave there as -true (C13)
+        fn subst(e: &Expression) -> Expression {
+            match e {
+                Expression::Global(_) => t(Test::True),
+                Expression::Operator(op) => match op.as_ref() {
+                    Operator::Precedence(x) => prec(subst(x)),
+                    Operator::Not(x) => not(subst(x)),
+                    Operator::And(a, b) => and(subst(a), subst(b)),
+                    Operator::Or(a, b) => or(subst(a), subst(b)),
+                    Operator::List(a, b) => list(subst(a), subst(b)),
+                },
+                other => other.clone(),
+            }
+        }
+        let eref = subst(e);
+        let mut r = Rng::new(5);
+        match crate::tv::validate_as(e, &eref, &crate::sut::opts_for(crate::rng::hash_str(case)), &mut |now| directed_records(&eref, now, &mut r, 3)) {
+            crate::tv::Tv::Bad { kind, what, detail } => rep.violation(&format!("C12:option-node-not-true:{}", kind), &format!("a hand-built option node was compiled, but not like -true: {}", what), case, detail),
+            _ => rep.count("option_node_compiled_like_true"),
+        }
         return;
     }
     if uns.is_empty() {
